@@ -11,6 +11,7 @@ CONSTANTS
  FP <- FPid
  MaxOps = 2
  MaxCount = 0
+ WithScan = TRUE
  AllowClose = FALSE
  Dev = {"ReadMarkSkipsZero"}
  MaxHist = 0
